@@ -54,5 +54,11 @@ CLAIMED = {
   'note': 'Single-valued attributes over EInt-like, map-typed, list-typed and user data types. Trusted: the probing of get_default_value() (called twice per declaration) that builds the table; XMI save bytes before/after reads are compared by the oracle only.',
   'technique': 'Lean 4 proof (NoAlias invariant, read purity) + per-run table obligation on regenerated default table + differential correspondence + independent oracle; known finding F-C15-1',
  },
+ 'C06': {
+  'text': 'PARTIAL proof. Lean theorems: C06_cursor / C06_truncate / C06_redo_after_execute / C06_undo_empty / C06_undo_redo (command-stack discipline: executing discards the redo tail, redo then reports an error and changes nothing, undo-then-redo is the identity whenever the command\'s redo inverts its undo at that state), C06_add_undo / C06_remove_undo / C06_move_undo (inverse laws of Add / Remove / Move on the collection they act on, for every index incl. negative and out of range), C06_inv (every letter keeps the C01/C02 invariants). Not proved: the whole-model inverse law for references with an opposite (false of the code: kernel-checked counterexample, findings F-C06-1/2) and Delete/Compound (not in the model). Those are decided by the differential correspondence (Set/Add/Remove/Move words incl. stealing ones, letter by letter: outcome, cursor, stack length, full model) and by the oracle (all six command kinds, whole-model dump equality pre-exec vs post-undo, post-exec vs post-redo, superseded redo).',
+  'design_ref': 'DESIGN.md section 4 C06',
+  'note': 'Commands that cannot execute, whose can_execute raises, or that steal (decidable predicate on the pre-state, the statement\'s exclusion) are skipped by the oracle; sub-commands of a generated Compound are independent (disjoint objects). A command that reports can_execute but raises in execute is outside the statement and not judged.',
+  'technique': 'Lean 4 proof (stack discipline + per-index inverse laws; partial) + differential correspondence on command words + whole-model oracle; known findings F-C06-1, F-C06-2',
+ },
 }
 NOT_APPLICABLE = {}
